@@ -140,7 +140,14 @@ func (s *Stream) readMore(minSize int) (err error) {
 	}
 
 	if recvLen == 0 && !s.IsOpen() {
-		return ErrEndOfStream
+		// data delivered between the moveTo above and the close is still pending: look again before reporting the end
+		s.pendingData.moveTo(s.recvBuf)
+		if s.recvBuf.Len() >= minSize {
+			return nil
+		}
+		if s.recvBuf.Len() == 0 {
+			return ErrEndOfStream
+		}
 	}
 
 	var timeoutCh <-chan time.Time
